@@ -1,3 +1,220 @@
-use vh::runner::Ctx;
+//! C18 — io_uring operations complete once with the direct system call's result; teardown is
+//! exact. Engines: E1 (in-process harness) + E2 (`sc` interposer log for set-up/drop), real kernel.
+//!
+//! Sub-checks (failure signatures `<constructor or operation>|<class>|<shape>`):
+//! * `drop`  — interposer log across `drop(ring)`: each mapping of `setup_io_uring` unmapped
+//!             exactly once with its length, ring descriptor closed once, nothing else.
+//!             Exhaustive over ring sizes 1..=32 x accepted flag sets.
+//! * `fs`    — twin directories: batches of linked/independent entries through the ring vs.
+//!             direct calls (hand-written one-constructor cases first, then generated ones).
+//! * `sock`  — twin sockets: socket/connect/accept/sendmsg/recvmsg/poll/close likewise.
+//! * `soak`  — thousands of generated `fs` batches on one ring (slots cycle many times).
+//! The differential sub-checks never judge teardown.
+mod fs;
+mod ring;
+mod sock;
+mod sys;
+mod teardown;
 
-pub fn run(_ctx: &Ctx) {}
+use proptest::prelude::*;
+use proptest::strategy::ValueTree;
+use proptest::test_runner::{Config, RngAlgorithm, TestRng, TestRunner};
+use serde::{Deserialize, Serialize};
+use serde_json::json;
+use vh::runner::{CaseResult, Ctx};
+
+use fs::{Batch, Chain, DirRef, FdRef, FsCase, Op, OpG};
+use ring::RingCfg;
+use sock::{SChain, SOp, SOpG, SRef, SockCase, Step};
+
+#[derive(Debug, Clone, Serialize, Deserialize)]
+pub struct SoakCase {
+    pub cfg: RingCfg,
+    pub seed: u64,
+    pub nbatches: u32,
+}
+
+/// Deterministic expansion of a soak case into batches, using the `fs` batch strategy with a
+/// generator seeded from the case.
+fn soak_batches(seed: u64, n: u32) -> Vec<Batch> {
+    let mut bytes = [0u8; 32];
+    for (i, ch) in bytes.chunks_mut(8).enumerate() {
+        ch.copy_from_slice(&vh::runner::splitmix(seed.wrapping_add(i as u64)).to_le_bytes());
+    }
+    let mut runner = TestRunner::new_with_rng(Config::default(), TestRng::from_seed(RngAlgorithm::ChaCha, &bytes));
+    let strat = fs::batch_strategy();
+    (0..n).map(|_| strat.new_tree(&mut runner).expect("batch strategy never rejects").current()).collect()
+}
+
+fn run_soak(ctx: &Ctx, c: &SoakCase) -> CaseResult {
+    let case = FsCase { cfg: c.cfg, sizes: [120, 7], batches: soak_batches(c.seed, c.nbatches) };
+    fs::run_case(ctx, &case)
+}
+
+fn g(op: Op) -> OpG {
+    OpG { op, a: false }
+}
+
+fn one(ops: Vec<Op>) -> Batch {
+    Batch { chains: vec![Chain { lane: 0, ops: ops.into_iter().map(g).collect() }] }
+}
+
+/// One small scenario per constructor (success and failure paths), so that a defect confined to
+/// one constructor is reported under that constructor's name whatever the random cases hit first.
+fn fs_each() -> Vec<FsCase> {
+    let s = |b: Vec<Batch>| FsCase { cfg: RingCfg::plain(8), sizes: [50, 20], batches: b };
+    let d = DirRef::LaneDir;
+    vec![
+        s(vec![one(vec![Op::Readv { fd: FdRef::Slot(0), lens: vec![10, 0, 25] }]), one(vec![Op::Readv { fd: FdRef::Slot(1), lens: vec![64] }]), one(vec![Op::Readv { fd: FdRef::Bad, lens: vec![4] }]), one(vec![Op::Readv { fd: FdRef::Dir, lens: vec![4] }]), one(vec![Op::Readv { fd: FdRef::Reg(0), lens: vec![30, 30] }])]),
+        s(vec![one(vec![Op::Writev { fd: FdRef::Slot(0), lens: vec![10, 3], fill: 9 }]), one(vec![Op::Writev { fd: FdRef::Slot(2), lens: vec![5], fill: 1 }]), one(vec![Op::Writev { fd: FdRef::Slot(1), lens: vec![5], fill: 1 }]), one(vec![Op::Writev { fd: FdRef::Reg(1), lens: vec![100, 100, 100], fill: 3 }]), one(vec![Op::Readv { fd: FdRef::Slot(0), lens: vec![64] }])]),
+        s(vec![one(vec![Op::ReadFixed { fd: FdRef::Slot(0), off: 16, len: 40, bad: 0 }]), one(vec![Op::ReadFixed { fd: FdRef::Reg(0), off: 0, len: 256, bad: 0 }]), one(vec![Op::ReadFixed { fd: FdRef::Slot(0), off: 0, len: 8, bad: 1 }]), one(vec![Op::ReadFixed { fd: FdRef::Slot(0), off: 0, len: 8, bad: 2 }]), one(vec![Op::ReadFixed { fd: FdRef::Reg(2), off: 0, len: 8, bad: 0 }])]),
+        s(vec![one(vec![Op::WriteFixed { fd: FdRef::Slot(0), off: 3, len: 100, bad: 0 }]), one(vec![Op::WriteFixed { fd: FdRef::Reg(1), off: 200, len: 56, bad: 0 }]), one(vec![Op::WriteFixed { fd: FdRef::Slot(1), off: 0, len: 8, bad: 0 }]), one(vec![Op::WriteFixed { fd: FdRef::Bad, off: 0, len: 8, bad: 0 }])]),
+        s(vec![
+            one(vec![Op::Openat { dir: d, name: 0, o: 2, mode: 0 }]),
+            one(vec![Op::Openat { dir: DirRef::Abs, name: 2, o: 1 | 4 | 8, mode: 0o640 }]),
+            one(vec![Op::Openat { dir: d, name: 2, o: 1 | 4 | 8, mode: 0o640 }]),
+            one(vec![Op::Openat { dir: d, name: 3, o: 0, mode: 0 }]),
+            one(vec![Op::Openat { dir: d, name: 4, o: 1 << 6, mode: 0 }]),
+            one(vec![Op::Openat { dir: DirRef::BadFd, name: 0, o: 0, mode: 0 }]),
+            one(vec![Op::Openat { dir: d, name: 13, o: 1 << 7, mode: 0 }]),
+            one(vec![Op::Openat { dir: d, name: 1, o: 1 | 1 << 4 | 1 << 5 | 1 << 9 | 1 << 10, mode: 0 }]),
+            one(vec![Op::Readv { fd: FdRef::Slot(3), lens: vec![16] }, Op::Writev { fd: FdRef::Slot(4), lens: vec![16], fill: 2 }]),
+        ]),
+        s(vec![one(vec![Op::Close { fd: FdRef::Slot(0) }]), one(vec![Op::Close { fd: FdRef::Slot(0) }]), one(vec![Op::Close { fd: FdRef::Bad }]), one(vec![Op::Close { fd: FdRef::Slot(1) }, Op::Readv { fd: FdRef::Slot(1), lens: vec![4] }])]),
+        s(vec![one(vec![Op::Statx { dir: d, name: 0, mask: 0x7ff, fl: 0 }]), one(vec![Op::Statx { dir: DirRef::Abs, name: 4, mask: 0x3fff, fl: 0 }]), one(vec![Op::Statx { dir: d, name: 3, mask: 0x7ff, fl: 0 }]), one(vec![Op::Statx { dir: d, name: 15, mask: 0x7ff, fl: 1 }]), one(vec![Op::Statx { dir: d, name: 0, mask: 0x7ff, fl: 16 }]), one(vec![Op::Statx { dir: DirRef::NotDir, name: 0, mask: 1, fl: 0 }])]),
+        s(vec![one(vec![Op::Mkdirat { dir: d, name: 5, mode: 0o750 }]), one(vec![Op::Mkdirat { dir: d, name: 5, mode: 0o750 }]), one(vec![Op::Mkdirat { dir: DirRef::Abs, name: 8, mode: 0o700 }]), one(vec![Op::Mkdirat { dir: d, name: 9, mode: 0o700 }]), one(vec![Op::Mkdirat { dir: d, name: 12, mode: 0o700 }])]),
+        s(vec![one(vec![Op::Unlinkat { dir: d, name: 0, rmdir: false }]), one(vec![Op::Unlinkat { dir: d, name: 0, rmdir: false }]), one(vec![Op::Unlinkat { dir: d, name: 4, rmdir: false }]), one(vec![Op::Unlinkat { dir: d, name: 4, rmdir: true }]), one(vec![Op::Unlinkat { dir: DirRef::Abs, name: 6, rmdir: false }, Op::Unlinkat { dir: d, name: 4, rmdir: true }]), one(vec![Op::Unlinkat { dir: d, name: 1, rmdir: true }])]),
+        s(vec![
+            one(vec![Op::Renameat { odir: d, oname: 0, ndir: d, nname: 2, fl: 0 }]),
+            one(vec![Op::Renameat { odir: DirRef::Abs, oname: 2, ndir: d, nname: 1, fl: 1 }]),
+            one(vec![Op::Renameat { odir: d, oname: 2, ndir: DirRef::Abs, nname: 1, fl: 2 }]),
+            one(vec![Op::Renameat { odir: d, oname: 3, ndir: d, nname: 0, fl: 0 }]),
+            one(vec![Op::Renameat { odir: d, oname: 4, ndir: d, nname: 5, fl: 0 }]),
+            one(vec![Op::Renameat { odir: d, oname: 1, ndir: DirRef::BadFd, nname: 0, fl: 0 }]),
+            one(vec![Op::Renameat { odir: d, oname: 1, ndir: d, nname: 2, fl: 3 }]),
+        ]),
+        s(vec![one(vec![Op::Timeout { us: 300, abs: false, count: 0 }]), one(vec![Op::Timeout { us: 300, abs: true, count: 0 }]), one(vec![Op::Timeout { us: 200, abs: false, count: 2 }]), one(vec![Op::Timeout { us: 100, abs: false, count: 0 }, Op::Mkdirat { dir: d, name: 5, mode: 0o700 }])]),
+        s(vec![one(vec![Op::PollAdd { fd: FdRef::Slot(0), ev: 1 | 4 }]), one(vec![Op::PollAdd { fd: FdRef::Dir, ev: 1 | 8 | 16 }]), one(vec![Op::PollAdd { fd: FdRef::Bad, ev: 1 }]), one(vec![Op::PollAdd { fd: FdRef::Reg(0), ev: 4 }])]),
+        // the repository's own linked scenario: mkdir, create, stat, remove, rmdir — then the same with a failure in the middle
+        s(vec![
+            one(vec![Op::Mkdirat { dir: d, name: 5, mode: 0o755 }, Op::Openat { dir: d, name: 8, o: 2 | 4, mode: 0o600 }, Op::Statx { dir: d, name: 8, mask: 0x7ff, fl: 0 }, Op::Unlinkat { dir: d, name: 8, rmdir: false }, Op::Unlinkat { dir: d, name: 5, rmdir: true }]),
+            one(vec![Op::Mkdirat { dir: d, name: 5, mode: 0o755 }, Op::Openat { dir: d, name: 9, o: 0, mode: 0 }, Op::Statx { dir: d, name: 5, mask: 0x7ff, fl: 0 }, Op::Unlinkat { dir: d, name: 5, rmdir: true }]),
+            one(vec![Op::Statx { dir: d, name: 3, mask: 1, fl: 0 }, Op::Unlinkat { dir: d, name: 3, rmdir: false }, Op::Mkdirat { dir: d, name: 4, mode: 0o700 }, Op::Readv { fd: FdRef::Slot(1), lens: vec![100] }, Op::Statx { dir: d, name: 0, mask: 1, fl: 0 }]),
+        ]),
+    ]
+}
+
+fn sg(op: SOp) -> SOpG {
+    SOpG { op, a: false }
+}
+
+fn sone(ops: Vec<SOp>) -> Step {
+    Step::Batch(vec![SChain { lane: 0, ops: ops.into_iter().map(sg).collect() }])
+}
+
+fn sock_each() -> Vec<SockCase> {
+    let s = |steps: Vec<Step>| SockCase { cfg: RingCfg::plain(8), ring_connect: true, accept_addr: true, steps };
+    let sk = |dom, ty, proto| SOp::Socket { dom, ty, nb: false, ce: true, proto };
+    vec![
+        s(vec![sone(vec![sk(0, 0, 0)]), sone(vec![sk(0, 1, 0)]), sone(vec![sk(1, 0, 1)]), sone(vec![sk(1, 0, 2)]), sone(vec![sk(0, 0, 3)]), sone(vec![sk(3, 0, 0)]), sone(vec![SOp::Socket { dom: 0, ty: 2, nb: true, ce: false, proto: 0 }])]),
+        s(vec![sone(vec![sk(0, 0, 0)]), sone(vec![SOp::Connect { sock: SRef::Slot(2), to: 0 }]), sone(vec![SOp::Accept { inet: false, addr: false, nb: false, ce: false }]), sone(vec![SOp::Sendmsg { sock: SRef::Slot(2), lens: vec![7], fill: 1, pass_fd: false, raw: false, fl: 0 }, SOp::Recvmsg { sock: SRef::Slot(3), lens: vec![16], ctrl: false, dontwait: false, peek: false }])]),
+        s(vec![sone(vec![sk(0, 0, 0)]), sone(vec![SOp::Connect { sock: SRef::Slot(2), to: 1 }]), sone(vec![SOp::Connect { sock: SRef::Slot(2), to: 2 }]), sone(vec![SOp::Connect { sock: SRef::Slot(0), to: 0 }]), sone(vec![SOp::Connect { sock: SRef::Bad, to: 0 }]), sone(vec![SOp::Connect { sock: SRef::File, to: 0 }])]),
+        s(vec![sone(vec![SOp::Accept { inet: false, addr: false, nb: false, ce: true }]), sone(vec![SOp::Accept { inet: false, addr: false, nb: true, ce: false }])]),
+        s(vec![sone(vec![SOp::Accept { inet: false, addr: true, nb: false, ce: true }])]),
+        s(vec![sone(vec![SOp::Accept { inet: true, addr: false, nb: false, ce: true }])]),
+        s(vec![sone(vec![SOp::Accept { inet: true, addr: true, nb: false, ce: true }])]),
+        s(vec![
+            Step::DirectConnect { lane: 0 },
+            sone(vec![SOp::Accept { inet: false, addr: false, nb: false, ce: false }]),
+            sone(vec![SOp::Sendmsg { sock: SRef::Slot(0), lens: vec![5, 20], fill: 1, pass_fd: false, raw: false, fl: 0 }]),
+            sone(vec![SOp::Recvmsg { sock: SRef::Slot(1), lens: vec![3, 40], ctrl: false, dontwait: false, peek: false }]),
+            sone(vec![SOp::Sendmsg { sock: SRef::Slot(1), lens: vec![30], fill: 2, pass_fd: true, raw: false, fl: 0 }]),
+            sone(vec![SOp::Recvmsg { sock: SRef::Slot(0), lens: vec![64], ctrl: true, dontwait: false, peek: false }]),
+            sone(vec![SOp::Sendmsg { sock: SRef::Slot(0), lens: vec![12], fill: 3, pass_fd: true, raw: true, fl: 2 }]),
+            sone(vec![SOp::Recvmsg { sock: SRef::Slot(1), lens: vec![64], ctrl: true, dontwait: true, peek: true }, SOp::Recvmsg { sock: SRef::Slot(1), lens: vec![4], ctrl: false, dontwait: false, peek: false }]),
+            sone(vec![SOp::Recvmsg { sock: SRef::Slot(1), lens: vec![64], ctrl: true, dontwait: false, peek: false }]),
+            sone(vec![SOp::Recvmsg { sock: SRef::Slot(1), lens: vec![64], ctrl: true, dontwait: false, peek: false }]),
+            sone(vec![SOp::Sendmsg { sock: SRef::Bad, lens: vec![1], fill: 0, pass_fd: false, raw: false, fl: 0 }, SOp::Recvmsg { sock: SRef::Slot(0), lens: vec![1], ctrl: false, dontwait: true, peek: false }]),
+            sone(vec![SOp::Sendmsg { sock: SRef::File, lens: vec![1], fill: 0, pass_fd: false, raw: true, fl: 0 }]),
+            sone(vec![SOp::Recvmsg { sock: SRef::Listener, lens: vec![1], ctrl: false, dontwait: true, peek: false }]),
+        ]),
+        s(vec![
+            Step::DirectConnect { lane: 0 },
+            sone(vec![SOp::PollAdd { sock: SRef::Listener, ev: 1 }]),
+            sone(vec![SOp::PollAdd { sock: SRef::Slot(0), ev: 1 | 4 }]),
+            sone(vec![SOp::Accept { inet: false, addr: false, nb: false, ce: false }]),
+            sone(vec![SOp::Sendmsg { sock: SRef::Slot(0), lens: vec![9], fill: 1, pass_fd: false, raw: false, fl: 0 }, SOp::PollAdd { sock: SRef::Slot(1), ev: 1 }]),
+            sone(vec![SOp::Close { sock: SRef::Slot(0) }, SOp::PollAdd { sock: SRef::Slot(1), ev: 1 | 64 }]),
+            sone(vec![SOp::PollAdd { sock: SRef::Slot(1), ev: 1 }, SOp::Recvmsg { sock: SRef::Slot(1), lens: vec![64], ctrl: false, dontwait: false, peek: false }, SOp::Recvmsg { sock: SRef::Slot(1), lens: vec![64], ctrl: false, dontwait: false, peek: false }]),
+            sone(vec![SOp::Close { sock: SRef::Slot(1) }, SOp::Close { sock: SRef::Slot(1) }]),
+            sone(vec![SOp::PollAdd { sock: SRef::Bad, ev: 1 }]),
+        ]),
+    ]
+}
+
+pub fn run(ctx: &Ctx) {
+    let pr = ring::probe();
+    ctx.extra("kernel_probe", serde_json::to_value(pr).unwrap_or(json!(null)));
+    if !pr.available {
+        eprintln!("[C18] io_uring is not available here ({:?}): nothing can be decided", pr.setup_error);
+        ctx.inconclusive();
+        return;
+    }
+    let excluded: Vec<String> = pr.unsupported_ops.clone();
+    ctx.extra("opcodes_excluded_unsupported_by_kernel", json!(excluded));
+    ctx.extra("setup_flag_sets_refused", json!(pr.refused));
+
+    let timing = std::env::var("C18_TIMING").is_ok();
+    let t0 = std::time::Instant::now();
+    let lap = |what: &str| {
+        if timing {
+            eprintln!("[C18 timing] {what}: {:.2}s since start", t0.elapsed().as_secs_f64());
+        }
+    };
+    fs::remove_case_root(ctx);
+    // (1) teardown
+    teardown::run(ctx);
+    lap("drop");
+
+    // (2) one scenario per constructor, same case type and sub-check name as the generated ones
+    if !ctx.is_replay() {
+        for (i, c) in fs_each().iter().enumerate() {
+            if i % ctx.nworkers as usize == ctx.worker as usize {
+                ctx.run_one("fs", c, || fs::run_case(ctx, c));
+            }
+        }
+        for (i, c) in sock_each().iter().enumerate() {
+            if i % ctx.nworkers as usize == ctx.worker as usize {
+                ctx.run_one("sock", c, || sock::run_case(ctx, c));
+            }
+        }
+    }
+
+    lap("each");
+    // (3) generated batches
+    let max_b = if ctx.thorough() { 120 } else { 24 };
+    let spent = std::cell::Cell::new(0f64);
+    ctx.run_prop("fs", ctx.cases(150, 2500), fs::case_strategy(max_b), |c: &FsCase| {
+        let t = std::time::Instant::now();
+        let r = fs::run_case(ctx, c);
+        spent.set(spent.get() + t.elapsed().as_secs_f64());
+        r
+    });
+    if timing {
+        eprintln!("[C18 timing] fs: {:.2}s inside run_case", spent.get());
+    }
+    lap("fs");
+    ctx.run_prop("sock", ctx.cases(120, 2000), sock::case_strategy(if ctx.thorough() { 60 } else { 16 }), |c: &SockCase| sock::run_case(ctx, c));
+
+    lap("sock");
+    // (4) one ring, many batches
+    let nb = if ctx.thorough() { 1500u32..4000 } else { 200u32..400 };
+    let soak = (ring::cfg_strategy(), any::<u64>(), nb).prop_map(|(cfg, seed, nbatches)| SoakCase { cfg, seed, nbatches });
+    ctx.run_prop("soak", ctx.cases(1, 12), soak, |c: &SoakCase| run_soak(ctx, c));
+
+    lap("soak");
+    fs::remove_case_root(ctx);
+    ctx.extra("max_batches_on_one_ring", json!(MAX_BATCHES.load(std::sync::atomic::Ordering::Relaxed)));
+}
+
+pub static MAX_BATCHES: std::sync::atomic::AtomicU64 = std::sync::atomic::AtomicU64::new(0);
